@@ -618,6 +618,23 @@ func genC01(r *Run) {
 			r.Count("boundary-length")
 		}
 	}
+	// long values whose content repeats (constant fill, zero padding, lists of identical records): the instances a
+	// value travels in are then EQUAL octet strings, and each of them still counts
+	for _, l := range []int{255, 256, 509, 510, 511, 512, 600, 765, 766, 1020, 1275} {
+		for pi, period := range []int{1, 1, 3, 5, 15, 17, 51, 85, 255, 256, 510} {
+			unit := r.Bytes(period)
+			if pi == 0 {
+				unit = []byte{0}
+			}
+			v := bytes.Repeat(unit, l/period+1)[:l]
+			a := r.randPkt(map[byte][]byte{byte(r.Pick(43, 82, 12, 254)): v})
+			if period == 1 || period == 255 {
+				r.Add(eV4EncDec, a...)
+			}
+			oracleC01(r, a)
+			r.Count("periodic-long-value")
+		}
+	}
 	// the option-set encoding cut short: an encoding that ends inside an instance (on its code octet, on its length
 	// octet, inside its value) does not decode to anything - the reassembly of split values relies on it; direct
 	// oracle on Options.FromBytes (which does not ask for an End option) plus the model on the same octets
